@@ -5,7 +5,7 @@ from oracle_util import *  # noqa
 from protocol import from_real, KEYS
 
 ID = "C10"
-LEAN_MODULE = ["SCoda.Props.C10", "SCoda.Props.C11b"]
+LEAN_MODULE = ["SCoda.Props.C10", "SCoda.Props.C11b", "SCoda.Props.ElemTie"]
 LEVEL = "proof"
 CLAUSES = [
     ("an accepted bar lasts exactly numerator*4/denominator quarter notes (its capacity in ticks, the int-typed value of the Python expression)",
@@ -16,6 +16,14 @@ CLAUSES = [
     ("a conflicting or second (different) signature is rejected; the only failure is a bar error; nothing valid is rejected",
      ["SCoda.C10.bar_conflict", "SCoda.C10.bar_two_sigs", "SCoda.C10.bar_error_kind", "SCoda.C10.bar_accepts"]),
     ("copying a bar yields an equal bar", ["SCoda.C10.bar_copy"]),
+    ("TIE BY TRANSLATION: Bar.__init__, Bar.copy, Bar.is_empty, Bar.transpose and Bar.to_sequence are re-translated statement by statement from bar.py on "
+     "every run (Gen/ElemFns.lean, on top of the translated Sequence wrapper) and proved equal to the model `mkBar` / `Bar.copy` / `barsToSeq` the theorems "
+     "above are about: same BarException or same bar, for every wrapper state of the sequence, every sequence and every signature with 0 <= numerator, "
+     "0 < denominator (the domain on which Python's int(n*PPQN/(d/4)) is the model's integer capacity); the constructed bar's sequence has its relative view "
+     "fresh and its absolute view stale",
+     ["SCoda.ElemTie.barInit_eq", "SCoda.ElemTie.barInit_toBar", "SCoda.ElemTie.barInit_flags", "SCoda.ElemTie.barCopy_toBar",
+      "SCoda.ElemTie.barCopy_constructed", "SCoda.ElemTie.barTranspose_eq", "SCoda.ElemTie.barIsEmpty_eq", "SCoda.ElemTie.barsToSequence_eq",
+      "SCoda.ElemTie.barsToSequence_constructed", "SCoda.ElemTie.pyIntOf_barCap", "SCoda.ElemTie.translated_covered"]),
 ]
 RULE = ("relative sequences shorter than / equal to / longer than the capacity, with zero, one matching, one conflicting "
         "or two signature events, x 12 signatures x keys; non-trivial = sequence has notes or a signature event")
